@@ -4,6 +4,7 @@
 package coll
 
 import (
+	"reflect"
 	"fmt"
 	"sort"
 
@@ -221,6 +222,7 @@ type Set interface {
 	IsSupersetByKey(o Set) bool
 	SetKV(k, v int) // in-place mutator
 	Get(k int) int
+	MapID() uintptr // identity of the Go map that stores the elements (two handles may share one)
 }
 
 type GSet struct{ S *fpgo.MapSetDef[int, int] }
@@ -246,6 +248,12 @@ func wrapG(s fpgo.SetDef[int, int]) Set { return GSet{s.AsMapSet()} }
 
 func (s GSet) Family() string  { return "generic" }
 func (s GSet) ID() interface{} { return s.S }
+func (s GSet) MapID() uintptr {
+	if s.S == nil || *s.S == nil {
+		return 0
+	}
+	return reflect.ValueOf(*s.S).Pointer()
+}
 func (s GSet) AsMap() map[int]int {
 	out := map[int]int{}
 	for k, v := range s.S.AsMap() {
@@ -294,6 +302,12 @@ func is(o Set) *fpgo.SetForInterfaceDef {
 
 func (s ISet) Family() string  { return "interface{}" }
 func (s ISet) ID() interface{} { return s.S }
+func (s ISet) MapID() uintptr {
+	if s.S == nil || *s.S == nil {
+		return 0
+	}
+	return reflect.ValueOf(*s.S).Pointer()
+}
 func (s ISet) AsMap() map[int]int {
 	out := map[int]int{}
 	for k, v := range *s.S {
